@@ -19,7 +19,7 @@ sys.path.insert(0, str(Path(__file__).resolve().parent))
 import vcore
 from vcore import KaniRunner, Query, Result, log
 
-PROPS = ["C01", "C02", "C03", "C04", "C05", "C06", "C07", "C08", "C09", "C10", "C11", "C13", "C17", "C18", "C19", "C20"]
+PROPS = ["C01", "C02", "C03", "C04", "C05", "C06", "C07", "C08", "C09", "C10", "C11", "C13", "C14", "C17", "C18", "C19", "C20"]
 
 
 def load_prop(pid: str):
